@@ -24,7 +24,10 @@
     * query schedule: `sv_queries_step_starts`, `mps_queries` – emu-sv uses the matrix of the step
       start `t_k`; emu-mps uses the mid-point of step 0 for step 0 and `t_k` for every k ≥ 1;
       `backends_agree_after_step0`, `step0_differs_iff` – the two back-ends can disagree only on step 0,
-      exactly when `0 < slm_end ≤ t_1/2`; `masked_steps_prefix` – masked steps form a prefix.
+      exactly when `0 < slm_end ≤ t_1/2`; `masked_steps_prefix` – masked steps form a prefix;
+    * badly prepared atoms: `sv_step_matrix`, `sv_step_entry`, `sv_full_after_slm_end`, `darkSv_symm`,
+      `mps_step_matrix`, `mps_step_entry` – the matrix used in step k is the dark filter of the callable
+      evaluated at that step's query time (never a matrix remembered from an earlier step).
 -/
 import EmuVerif.Proofs.Interact
 
@@ -163,6 +166,51 @@ theorem masked_steps_prefix (g : List α) (hs : g.Pairwise (· < ·)) (j k : ℕ
   rcases Nat.lt_or_eq_of_le hjk with h | h
   · exact lt_trans (List.pairwise_iff_getElem.1 hs j k hj hk h) hm
   · subst h; exact hm
+
+/-! ### Badly prepared atoms on top of the schedule -/
+
+/-- emu-sv: the matrix used in step `k` is the dark filter applied to the callable **at the start
+time of that step** — in particular the SLM switch is re-evaluated at every step. -/
+theorem sv_step_matrix (full masked : Mat α) (bad : ℕ → Bool) (g : List α) (k : ℕ) (hk : k < g.length) :
+    svStepMat full masked slmEnd (some bad) g k = some (darkSv bad (callable full masked slmEnd g[k])) := by
+  simp [svStepMat, svQuery, List.getElem?_eq_getElem hk]
+
+/-- Entry-wise: rows/columns of bad atoms are zero at every step; the other entries are the masked
+matrix before the SLM end and the full matrix from the SLM end on. -/
+theorem sv_step_entry (full masked : Mat α) (bad : ℕ → Bool) (t : α) (i j : ℕ) :
+    darkSv bad (callable full masked slmEnd t) i j =
+      if bad i = true ∨ bad j = true then 0 else if t < slmEnd then masked i j else full i j := by
+  by_cases hb : bad i = true ∨ bad j = true
+  · rcases hb with h | h <;> simp [darkSv, h]
+  · have h1 : bad i = false := by simpa using (not_or.1 hb).1
+    have h2 : bad j = false := by simpa using (not_or.1 hb).2
+    by_cases ht : t < slmEnd <;> simp [darkSv, callable, h1, h2, ht]
+
+/-- Once the SLM mask has ended emu-sv uses the (dark-filtered) **full** matrix. -/
+theorem sv_full_after_slm_end (full masked : Mat α) (bad : ℕ → Bool) (g : List α) (k : ℕ)
+    (hk : k < g.length) (hend : slmEnd ≤ g[k]) :
+    svStepMat full masked slmEnd (some bad) g k = some (darkSv bad full) := by
+  rw [sv_step_matrix slmEnd full masked bad g k hk, after_slm_end slmEnd _ full masked (not_lt.2 hend)]
+
+theorem sv_step_matrix_no_error (full masked : Mat α) (g : List α) (k : ℕ) (hk : k < g.length) :
+    svStepMat full masked slmEnd none g k = some (callable full masked slmEnd g[k]) := by
+  simp [svStepMat, svQuery, List.getElem?_eq_getElem hk]
+
+/-- The dark filter keeps symmetry. -/
+theorem darkSv_symm (bad : ℕ → Bool) (m : Mat α) (h : Symm m) : Symm (darkSv bad m) := by
+  intro i j; simp only [darkSv, h i j, Bool.or_comm]
+
+/-- emu-mps: the sub-matrix of the well prepared atoms of the callable at the step's query time. -/
+theorem mps_step_matrix (full masked : Mat α) (keep : List ℕ) (g : List α) (k : ℕ) (hk : k + 1 < g.length) :
+    mpsStepMat (1 / 2 : α) full masked slmEnd (some keep) g (k + 1) =
+      some (darkMps keep (callable full masked slmEnd g[k + 1])) := by
+  unfold mpsStepMat
+  rw [(mps_queries g).2 k, List.getElem?_eq_getElem hk]
+  rfl
+
+theorem mps_step_entry (m : Mat α) (keep : List ℕ) (i j : ℕ) (hi : i < keep.length) (hj : j < keep.length) :
+    darkMps keep m i j = m keep[i] keep[j] := by
+  simp [darkMps, List.getD_eq_getElem?_getD, List.getElem?_eq_getElem hi, List.getElem?_eq_getElem hj]
 
 /-! ### Non-vacuity -/
 
